@@ -103,10 +103,41 @@ def judge(scen, strict, run, res, viol, lats):
         instant = all(x == 0 for x in lats)
         too_slow_raised = res[0] == "exc" and res[1] == "RuntimeError" and "too slow" in res[2]
         if instant and (slow or too_slow_raised):
+            # F12 as recorded: the report comes from a step at time 0 (late by clock ticks) or
+            # from a simulator that has a predecessor (late by at most one real-time step).
+            # Any other too-slow report of an instant run is not that finding.
+            cls = "too-slow-with-instant-simulators"
+            why = ""
+            has_pred = {c["dst"] for c in scen["conns"]}
+            at = getattr(run.logs, "at", [])
+            for i, (lv, msg) in enumerate(run.logs):
+                if "too slow" not in msg:
+                    continue
+                pos = at[i][0] if i < len(at) else len(run.trace)
+                prev = [e for e in run.trace[:pos] if e[0] == "S"]
+                sid, t = (prev[-1][1], prev[-1][3]) if prev else (None, None)
+                try:
+                    delta = float(msg.split(" - ")[1].split("s behind")[0])
+                except Exception:  # noqa: BLE001
+                    delta = None
+                # a consumer may only start once its producer's real-time progress has *passed*
+                # t, which the producer notices at its next poll: up to one real-time step late
+                ok = delta is not None and ((t == 0 and delta < 0.5 * f) or
+                                            (sid in has_pred and delta <= f * (1 + 1e-6)))
+                if not ok:
+                    cls = None
+                    why = f" (step of {sid} for time {t}, {delta} s behind, f={f})"
+                    break
+            if too_slow_raised and not slow:
+                last = [e for e in run.trace if e[0] == "S"]
+                sid, t = (last[-1][1], last[-1][3]) if last else (None, None)
+                if not (t == 0 or sid in has_pred):
+                    cls = None
+                    why = f" (raised after the step of {sid} for time {t})"
             add("instant-run-reported-too-slow",
                 f"all simulators answer instantly but "
-                f"{'RuntimeError(too slow) was raised' if too_slow_raised else str(len(slow)) + ' too-slow warning(s) were logged'}",
-                cls="too-slow-with-instant-simulators")
+                f"{'RuntimeError(too slow) was raised' if too_slow_raised else str(len(slow)) + ' too-slow warning(s) were logged'}"
+                + why, cls=cls)
         if res[0] != "ok" and not (strict and too_slow_raised):
             add("real-time-run-failed", f"run() ended with {res}")
         if not strict and too_slow_raised:
@@ -163,8 +194,9 @@ def compare_strict(scen, choices, alphabet):
 def pacing_scenarios(tier):
     out = []
     grid = [(0.5, 0.5), (0.5, 1), (0.5, 2), (1, 0.5), (1, 1), (1, 2), (2, 0.5), (2, 1), (2, 2), (0.1, 1)]
+    grid.append((0.004, 1))       # a real-time step far below typical poll/sleep granularities
     if tier == "quick":
-        grid = [(0.5, 1), (1, 2), (2, 0.5), (0.1, 1), (1, 1)]
+        grid = [(0.5, 1), (1, 2), (2, 0.5), (0.1, 1), (1, 1), (0.004, 1)]
     for rf, tr in grid:
         base = dict(rt_factor=rf, time_resolution=tr)
         out.append((f"rt_single_{rf}x{tr}", dict(base, until=4, sims=[T("A")], conns=[]),
